@@ -40,6 +40,7 @@ class CxFormulas:
         self.guards_of = {}    # local -> list of (facts) where assigned a formula
         self.zero_default = {}
         self.cellvars = {}
+        self.alias = {}
         self._roles()
         self._run(self.f.body, [])
 
@@ -149,6 +150,10 @@ class CxFormulas:
         elif k == "DeclStmt":
             for v in kids(s):
                 if v.get("kind") == "VarDecl" and kids(v):
+                    try:
+                        self.alias[uname(v)] = cxa.canon(kids(v)[-1])      # a const local is written out in the facts
+                    except Exception:
+                        pass
                     try:
                         val = self.ex(kids(v)[-1])
                         self.env[uname(v)] = val
@@ -324,15 +329,16 @@ SWAP = {"Di": S_("Dj"), "Dj": S_("Di"), "Vi": S_("Vj"), "Vj": S_("Vi"), "cbrt(Vi
         "cbrt(Vj)": S_("cbrt(Vi)")}
 
 
-def nonzero_guard(facts, py=False):
+def nonzero_guard(facts, py=False, alias=None):
     """do the facts contain both `Di != 0` and `Dj != 0` (in either language's canonical form)?"""
     ok = 0
     for d in ("Di", "Dj"):
+        names = [d] + ([alias[d]] if alias and d in alias else [])
         for t, pol in facts:
             if not isinstance(t, str) or pol is not False:
                 continue
             tt = t.replace(".value", "")
-            if tt in ("%s == 0" % d, "0 == %s" % d):
+            if any(tt in ("%s == 0" % d_, "0 == %s" % d_) for d_ in names):
                 ok += 1
                 break
     return ok == 2
@@ -396,7 +402,7 @@ def check_sib(ctx, tu, py):
     # zero guards: the formula is used only where both coefficients are non-zero, 0 otherwise
     for cf in (g, t):
         gl = cf.guards_of.get("Dij", [])
-        ok = len(gl) == 1 and nonzero_guard(gl[0][0]) and cf.zero_default.get("Dij")
+        ok = len(gl) == 1 and nonzero_guard(gl[0][0], alias=cf.alias) and cf.zero_default.get("Dij")
         out.append((ok, gl[0][2] if gl else cf.f.node, cf.f.qual, "Dij = 0 unless Di != 0 and Dj != 0", "zero if either is zero",
                     "the harmonic mean is evaluated although a coefficient may be zero (division by zero / non-zero flux "
                     "through a wall)"))
